@@ -3,7 +3,7 @@ import time
 
 import z3
 
-from .. import driver, engine, symstr, ench, judge
+from .. import driver, engine, symstr, ench, judge, skel
 from ..ctx import Ctx, table_model
 from ..engine import fresh_int, zint
 from ..oread import read_smiles, explicit_valence, table_key
@@ -94,7 +94,11 @@ def run(rep, tier, seed, budget):
     def run_plan(plan, share):
         for kind, n in plan:
             left = t_end - time.time()
-            if kind == "tok":
+            if kind == "skel":
+                at, tb, rb = n[1:]
+                name = "every skeleton of %d atoms %s in every writing order (tree bonds %s, ring bonds %s) x free table: strict raises iff some atom exceeds its capacity" % (n[0], list(at), list(tb), list(rb))
+                fn, bounds = mk_path(lambda n=n: skel.skeleton(n[0], at, tb, rb)), skel.bounds(n[0], at, tb, rb)
+            elif kind == "tok":
                 name = "N=%d SMILES tokens x free table: strict raises iff some atom exceeds its capacity; strict=False never consults the table" % n
                 fn, bounds = mk_path(lambda n=n: make_slots("s", [TOK] * n)), {"tokens": TOK, "N_tokens": n}
             else:
@@ -109,6 +113,8 @@ def run(rep, tier, seed, budget):
             rep.add_part(name, res, bounds)
 
     run_plan([("tok", 1), ("tok", 2)] + [("tpl", i) for i in range(len(TEMPLATES6))], 0.3)
+    SK6 = [(4, ("C",), ("", "="), ("", "="))] if quick else [(4, ("C", "N", "[O+]"), ("", "="), ("", "=")), (5, ("C",), ("", "="), ("", "=", "#"))]
+    run_plan([("skel", x) for x in SK6], 0.4)
     # tables that change between calls: strict-encode under table A (fills every cache), switch to table B through the
     # real set_semantic_constraints, strict-encode again: the second outcome must follow table B alone
     WARM = ["C(F)(F)(F)F", "N(F)(F)F", "[NH4+]", "[Fe](F)F", "O=C=O"]
